@@ -127,11 +127,7 @@ def isFinite (n : Nat) : Bool := decide (mag n < 0x7ff0000000000000)
 def value (n : Nat) : Dy :=
   ⟨if signBit n then -((mantExp n).1 : Int) else ((mantExp n).1 : Int), (mantExp n).2⟩
 
-/-- magnitude in units of 2^-1074 (the spacing of subnormals; every finite REAL is a multiple) -/
-def umag (n : Nat) : Nat := (mantExp n).1 * 2 ^ ((mantExp n).2 + 1074).toNat
-
-/-- the exact value in units of 2^-1074, an integer -/
-def units (n : Nat) : Int := if signBit n then -(umag n : Int) else (umag n : Int)
+-- `umag` (magnitude in units of 2^-1074) and `units` (the signed count) are defined in `Model/FloatArith.lean`
 
 /-- `W E F`: magnitude (in units of 2^-1074) of exponent field `E` and fraction field `F` -/
 def W (E F : Nat) : Nat := if E = 0 then F else (2 ^ 52 + F) * 2 ^ (E - 1)
